@@ -386,6 +386,8 @@ func checkC02(e *core.Env) {
 		}
 	})
 
+	unaryCutPhase(e, "http/unary", e.N(6, 60))
+
 	checkC02GC(e)
 }
 
